@@ -89,6 +89,16 @@ class SymBuilder:
                     self.wf.append(ln >= 0)
                 inner = args[0]
                 return Lst(n=ln, at=lambda i, inner=inner: self._make(inner, name + "[]", idx + (i,)))
+            if head == "Dict":
+                from .values import DctL, distinct_list
+                ln = self._sym(z3.IntSort(), name + ".len", idx)
+                self.wf.append(ln >= 0 if not (idx or self.ctx) else z3.BoolVal(True))
+                kspec, vspec = args
+                keys = Lst(n=ln, at=lambda i: self._make(kspec, name + ".keys[]", idx + (i,)))
+                vals = Lst(n=ln, at=lambda i: self._make(vspec, name + ".vals[]", idx + (i,)))
+                if not (idx or self.ctx):
+                    self.wf.append(distinct_list(keys))   # a dict has pairwise distinct keys
+                return DctL(keys, vals)
             raise Unsupported(f"type spec {head}[...]")
         raise Unsupported("type spec")
 
